@@ -358,24 +358,35 @@ Module Join.
          (vals j) (outer j)
     end.
 
+  (* one iteration of the structural loop of joinIncr.Stabilize *)
+  Definition struct_step (jo : t * zmap) (change : change) : t * zmap :=
+    let '(j, out) := jo in
+    match change with
+    | Removed key _ => (unlink j key, delete key out)
+    | Added key new => (link j key new, <[key := val_of (vals j) new]> out)
+    | Updated key _ new => (link (unlink j key) key new, <[key := val_of (vals j) new]> out)
+    end.
+
+  (* repaired variant only: re-read every linked key *)
+  Definition refresh_all (j : t) (out : zmap) : zmap :=
+    fold_left (fun out kv => <[kv.1 := val_of (vals j) kv.2]> out) (entries (linked j)) out.
+
+  (* the loop over j.pending *)
+  Definition apply_pending (j : t) (out : zmap) : zmap :=
+    fold_left (fun out key =>
+        match linked j !! key with
+        | Some inner => <[key := val_of (vals j) inner]> out
+        | None => out   (* the key was removed in this same pass *)
+        end) (pending j) out.
+
   (* joinIncr.Stabilize; sameNode compares identities *)
   Definition Stabilize (fixed : bool) (j : t) : t :=
     let current := outer j in
-    let '(j, out) := fold_left (fun '(j, out) change =>
-        match change with
-        | Removed key _ => (unlink j key, delete key out)
-        | Added key new => (link j key new, <[key := val_of (vals j) new]> out)
-        | Updated key _ new => (link (unlink j key) key new, <[key := val_of (vals j) new]> out)
-        end) (merge_diff (Some Z.eqb) (last j) current) (j, value j) in
-    (* repaired variant: re-read everything after the node was re-linked *)
-    let out := if fixed && refresh j
-               then fold_left (fun out kv => <[kv.1 := val_of (vals j) kv.2]> out) (entries (linked j)) out
-               else out in
-    let out := fold_left (fun out key =>
-        match linked j !! key with
-        | Some inner => <[key := val_of (vals j) inner]> out
-        | None => out
-        end) (pending j) out in
+    let jo := fold_left struct_step (merge_diff (Some Z.eqb) (last j) current) (j, value j) in
+    let j := jo.1 in
+    let out := jo.2 in
+    let out := if fixed && refresh j then refresh_all j out else out in
+    let out := apply_pending j out in
     with_value_pending j out [] current false.
 
   Definition clear_restale (j : t) : t :=
